@@ -26,7 +26,21 @@ double xp_now(void)
 	return ts.tv_sec + ts.tv_nsec / 1e9;
 }
 
-static void lock(void)   { while (__atomic_exchange_n(&XS->lock, 1, __ATOMIC_ACQUIRE)) usleep(50); }
+/* spin lock in shared memory; the value is the holder's pid so that a holder that died (a crash of the code under
+ * test inside a child) cannot block everybody else for ever */
+static void lock(void)
+{
+	int me = (int)getpid(), spins = 0;
+	for (;;) {
+		int expect = 0;
+		if (__atomic_compare_exchange_n(&XS->lock, &expect, me, 0, __ATOMIC_ACQUIRE, __ATOMIC_RELAXED)) return;
+		usleep(50);
+		if (++spins > 2000) {
+			spins = 0;
+			if (expect > 0 && kill(expect, 0) != 0 && errno == ESRCH) __atomic_compare_exchange_n(&XS->lock, &expect, 0, 0, __ATOMIC_ACQ_REL, __ATOMIC_RELAXED);
+		}
+	}
+}
 static void unlock(void) { __atomic_store_n(&XS->lock, 0, __ATOMIC_RELEASE); }
 #define ADD(field, n) __atomic_fetch_add(&XS->field, (n), __ATOMIC_RELAXED)
 
